@@ -167,7 +167,7 @@ func runC06(ctx *Ctx, idx int) {
 	if ctx.Tier == "thorough" {
 		scale = 1
 	}
-	if ctx.BuildMode == "race" {
+	if ctx.BuildMode == "race" || ctx.BuildMode == "asan" {
 		scale = 2
 	}
 	var ks KeySet
